@@ -270,6 +270,28 @@ def cases(ctx):
         for _ in range(ctx.scale(2, 10)):
             out.append(seq_case(1, 'generic', 'empty-selection', [kind], ['empty']))
             out.append(seq_case(2, 'generic', 'empty-selection-second', [rng.choice(['translation', 'rot_axis']), kind], ['all', 'empty']))
+    # histories: the same selection keywords are used by a transform BEFORE the chain labels are rewritten (update_column) and by
+    # the transforms after it; the selection means the atoms that carry the label NOW.  The model starts from the table observed
+    # after the prelude, with masks computed from the relabelled records.
+    for _ in range(ctx.scale(40, 600)):
+        lines = make_lines(rng, rng.choice([3, 5, 8, 13, 30]))
+        present = sorted({l[21] for l in lines})
+        perm = dict(zip(present, present[1:] + present[:1])) if len(present) > 1 and rng.random() < 0.8 else {c: rng.choice(CHAINS) for c in present}
+        relabelled = [l[:21] + perm[l[21]] + l[22:] for l in lines]
+        rows2 = pdb2sql(relabelled).get('*')
+        steps = []
+        for k in range(rng.randint(1, 3)):
+            st = make_step(rng, g, None, 'generic')
+            sk, kw, mask = selection(rng, rows2, rng.choice(['chain', 'chain', 'no_chain', 'chains_all', 'no_chain_and_name', 'no_row_and_chain', 'name']))
+            st.update({'selkind': sk, 'kwargs': kw, 'mask': mask})
+            steps.append(st)
+        pre = []
+        for st in steps[:rng.randint(1, len(steps))]:
+            p0 = make_step(rng, g, rng.choice(['translation', 'rot_axis']), 'generic')
+            p0.update({'kwargs': st['kwargs']})
+            pre.append(p0)
+        out.append({'op': 'transform_seq', 'lines': lines, 'steps': steps, 'family': 'history-relabel',
+                    'prelude': {'steps': pre, 'column': 'chainID', 'values': [l[21] for l in relabelled]}})
     # xyz-level functions with explicit centres
     for _ in range(ctx.scale(150, 5000)):
         n = rng.choice([1, 2, 5, 20])
@@ -320,6 +342,13 @@ def impl(ctx, c):
     op = c['op']
     if op == 'transform_seq':
         db = pdb2sql(c['lines'])
+        if c.get('prelude'):
+            for st in c['prelude']['steps']:
+                try:
+                    apply_real(db, st)
+                except Exception:
+                    pass
+            db.update_column(c['prelude']['column'], list(c['prelude']['values']))
         before = db.get('*')
         c['obs'] = {'db': table_json(before)}
         for k, st in enumerate(c['steps']):
